@@ -83,9 +83,9 @@ func runSplit(keys []ech.Key, target echx.KeyPair, aead uint16, retry bool, spli
 }
 
 func Run(r *ev.Run) {
-	r.Rule("E1 exhaustive, differential: all ordered key lists of length 0..4 (with repetition) over the pool {T target (id 42), A other key same id same suites, B other key same id but suite list lacking the client's AEAD, C other id, D other id and other public name, E other key same id other public name, S same key as T in a second config with same id (different public name bytes are NOT used: same name)} x 3 AEADs x {first hello, retried hello after HelloRetryRequest} x hello encrypted to {T, a key U the server never holds}; outcome(list) must equal outcome([T]) when T is in the list and outcome([]) otherwise; lists of 2-3 keys are also handed over as two WithKeys options at every split point, as sub-slices of one caller-owned array that must come back unmodified. distinct = distinct (list, aead, retry, target)")
+	r.Rule("E1 exhaustive, differential: all ordered key lists of length 0..4 (with repetition) over the pool {T target (id 42), A other key same id same suites, B other key same id but suite list lacking the client's AEAD, C other id, D other id and other public name, E other key same id other public name, S T's own key pair in a second config with the same id and another public name}; T's config carries maximum_name_length 200 and a non-mandatory extension (not what the library's encoder would write) x 3 AEADs x {first hello, retried hello after HelloRetryRequest} x hello encrypted to {T, a key U the server never holds}; outcome(list) must equal outcome([T]) when T is in the list and outcome([]) otherwise; lists of 2-3 keys are also handed over as two WithKeys options at every split point, as sub-slices of one caller-owned array that must come back unmodified. distinct = distinct (list, aead, retry, target)")
 	r.Assume("reference sender validated against crypto/tls (C03)", "all keys in a list are valid X25519 keys with well-formed configs")
-	pool := "TABCDE"
+	pool := "TABCDES"
 	var lists []string
 	enum.Sequences(len(pool), 4, func(seq []int) {
 		var b strings.Builder
@@ -98,7 +98,7 @@ func Run(r *ev.Run) {
 		// quick: all lists of length <=3 (156), and length-4 lists containing T
 		var l2 []string
 		for _, l := range lists {
-			if len(l) <= 3 || strings.Contains(l, "T") && strings.ContainsAny(l, "ABE") {
+			if len(l) <= 3 || strings.Contains(l, "T") && strings.ContainsAny(l, "ABES") {
 				l2 = append(l2, l)
 			}
 		}
@@ -123,7 +123,11 @@ func Run(r *ev.Run) {
 			}
 		}
 		return map[byte]echx.KeyPair{
-			'T': echx.NewKey("c09-T", 42, echx.AllSuites, "public.example"),
+			// T's config is not byte-identical to what this library's own encoder would write for the same fields
+			// (maximum_name_length 200, a non-mandatory extension): HPKE info is the config AS RECEIVED
+			'T': echx.NewKeyOpt("c09-T", 42, echx.AllSuites, "public.example", 200, []byte{0x12, 0x34, 0, 2, 0xaa, 0xbb}),
+			// S: T's key pair in a SECOND, different config with the same id (key rotation that kept the key, or a second public name)
+			'S': echx.NewKey("c09-T", 42, echx.AllSuites, "second-public.example"),
 			'A': echx.NewKey("c09-A", 42, echx.AllSuites, "public.example"),
 			'B': echx.NewKey("c09-B", 42, others, "public.example"),
 			'C': echx.NewKey("c09-C", 43, echx.AllSuites, "public.example"),
